@@ -198,7 +198,7 @@ class Curve(BSpline.Curve):
         if reset_ctrlpts:
             # Delete the caches
             self._cache['ctrlpts'] = self._init_array()
-            self._cache['weights'][:] = self._init_array()
+            self._cache['weights'] = self._init_array()  # a new list: the one handed out by the getter is the caller's
 
 
 @export
